@@ -1422,6 +1422,7 @@ func C17(p *load.Prog, r *oblig.Run) {
 	r.Assumptions = []string{"every value of type html.LivingVisibility is a copy of the one publish option", "methods called on a nil *IndividualNode reveal nothing", "E2 flow assumptions as for C18"}
 	r.Rule("R17.a", "no text read from a possibly living person's record reaches a page, a link or a file name outside the living/visibility guard", 55)
 	c17OwnerLookup(p, r)
+	c17VisibilityFields(p, r)
 	g := cg.New(p, false)
 	var roots []cg.Target
 	for _, n := range []string{"Publish", "Files"} {
